@@ -117,7 +117,7 @@ def run(tier, v):
             continue
         seen_l.add((inv, ln))
         row = lrows[ln - 1]
-        badt = [t for t in row["trials"] if (row["kind"] == "once" and (t["ok"] != row["n"] or t["end"] != row["g"] or t["dist"] != 1)) or t["loneg"] or t["hineg"] or t["leftneg"] != t["leftall"] or (row["kind"] == "unl" and t["end"] != 0)][:3]
+        badt = [t for t in row["trials"] if (row["kind"] == "once" and (t["ok"] != row["n"] or t["end"] != row["g"] or t["dist"] != 1)) or t["loneg"] or t["hineg"] or t["leftneg"] != t["leftall"] or (row["kind"] == "once" and t["leftend"] != 0) or (row["kind"] == "unl" and t["end"] != 0)][:3]
         v.violation("lazystart kind=%s inv=%s n=%d" % (row["kind"], inv, row["n"]),
                     "%s never Start()ed, %d goroutines released together: %s fails, e.g. trials %s" % ("once(%d)" % row["n"] if row["kind"] == "once" else "unlimited(1h)", row["g"], inv, badt),
                     replay_obj={"kind": "lazy", "invariant": inv, "line": row}, replay_name="lazy_%d_%s.json" % (ln, inv))
